@@ -1188,7 +1188,22 @@ def _persist(run, P):
                         and isinstance(t.operand, ast.Call):
                     tgt = P.resolve_name(f, dotted(t.operand.func) or "")
                     ok = isinstance(tgt, Func) and tgt.fq == "dagrt.utils.is_state_variable"
-    run.ob("C01.persist", f, site, ok and bool(dels),
+    if not ok and dels:
+        from .c11 import tracked_set_of_cleanup, tracked_entries
+        tr = tracked_set_of_cleanup(P)
+        if tr:
+            ents = tracked_entries(P, tr)
+            if not ents:
+                raise AnalysisError(f"run_single_step: nothing is entered into {tr}")
+            bad_ = [e_ for e_ in ents if not e_[2]]
+            run.ob("C01.persist", bad_[0][0] if bad_ else f, bad_[0][1] if bad_ else site, not bad_,
+                   construct=f"finally: delete what is in {tr}; only names that are no state variables "
+                             f"enter it ({len(ents)} site(s))",
+                   why="a name kept by one back end and dropped by the other differs in "
+                       "the second step")
+            ok = None
+    if ok is not None:
+      run.ob("C01.persist", f, site, ok and bool(dels),
            construct=f"finally: delete name unless {norm(site.test) if isinstance(site, ast.If) else '?'}",
            why="a name kept by one back end and dropped by the other differs in "
                "the second step")
